@@ -427,6 +427,19 @@ pub fn run(ctx: &Ctx) -> Value {
         }
     }
     bump("padded_display_events", n);
+    // 8b. digit-pair witnesses, and a sequence in which consecutive values share a component (one-entry memos / scratch state in the writer)
+    n = 0;
+    for f in ["%Y-%m-%d %H:%M:%S", "%C|%y|%G|%g", "%D %T", "%F %R", "%c", "%+", "%v %r", "%e %k %l %I", "%j %U %W %V"] {
+        for (i, v) in pair_witnesses().iter().enumerate() {
+            if ctx.quick() && (i + f.len()) % 2 != 0 { continue; }
+            tw.emit(fmt_event(&Val::Z(dts(&[*v], &[OFFSETS[i % OFFSETS.len()]])[0]), f)); n += 1;
+        }
+    }
+    for f in ["%Y-%m-%d", "%j", "%D", "%v", "%x", "%F|%a %b", "%U %W %G-%V-%u"] {
+        for d in memo_sequence() { tw.emit(fmt_event(&Val::D(d), f)); n += 1; }
+    }
+    for f in ["%+", "%c"] { for d in memo_sequence() { tw.emit(fmt_event(&Val::Z(dts(&[d.and_time(ts[0])], &[0])[0]), f)); n += 1; } }
+    bump("witness_and_sequence_events", n);
     // 9. DelayedFormat built from its parts: every presence pattern of (date, time, offset)
     n = 0;
     let part_formats = ["%Y-%m-%d", "%H:%M:%S%.f", "%z", "%:z %Z", "%s", "%c", "%+", "%F %T %z", "%a %j %U", "%I %p", "%e|%k|%::z", "%%", "x"];
